@@ -56,12 +56,9 @@ Proof.
   - eapply skip_bwd_nf; eauto.
 Qed.
 
-Lemma match3_nf keep s lim : forall covs p acc, match3 keep s lim p covs acc <> OutOfFuel.
+Lemma chain3_input_nf keep s a b gid input : chain3_input keep s a b gid input <> OutOfFuel.
 Proof.
-  induction covs as [|c rest IH]; intros p acc H; cbn [match3] in H; [discriminate|].
-  brk H; try nf_leaf H; try nf_base.
-  - eapply IH; eauto.
-  - eapply skip_fwd_nf; eauto.
+  unfold chain3_input. intros H. brk H; try nf_leaf H. eapply match_fwd_nf; eauto.
 Qed.
 
 Lemma seq_rules_nf test keep s k a b : forall rules, seq_rules test keep s k a b rules <> OutOfFuel.
@@ -146,8 +143,8 @@ Proof. unfold gpos3_next. intros H. brk H; try nf_leaf H; nf_base. Qed.
 
 Ltac nf_sub :=
   first [ eapply oget_nf; eassumption | eapply oupd_nf; eassumption
-        | eapply skip_fwd_nf; eassumption | eapply match_fwd_nf; eassumption
-        | eapply match_bwd_nf; eassumption | eapply match3_nf; eassumption
+        | eapply skip_fwd_nf; eassumption | eapply match_fwd_nf; eassumption | eapply chain3_input_nf; eassumption
+        | eapply match_bwd_nf; eassumption
         | eapply seq_rules_nf; eassumption | eapply chain_rules_nf; eassumption
         | eapply lig_loop_nf; eassumption | eapply vr_apply_at_nf; eassumption
         | eapply pair_apply_nf; eassumption | eapply mark_attach_nf; eassumption
